@@ -10,16 +10,19 @@ MODELLED_FUNCS = {'sugar/data/__init__.py': ['submat', '_submat_files']}
 RULE = ('every bundled matrix name (from _submat_files()) in upper, lower and random mixed case, all cells of the returned dict of '
         'dicts compared; unknown names (near misses of bundled names, random words, "", ".", README entries, relative paths); generated '
         'matrix files built from abstract lines (comment, blank, word lines with arbitrary white-space layout incl. tabs, \\x1f, '
-        'CRLF/CR/\\x0c... line ends, letters of 1-3 printable characters, int rows incl. integers beyond 2^53, decimal rows, ragged rows) '
+        'CRLF/CR/\\x0c/\\x85... line ends, NBSP separators, letters of 1-3 characters (printable ASCII and Latin-1), non-ASCII comment '
+        'text, int rows incl. integers beyond 2^53, decimal rows, ragged rows) '
         'written to a temp file and loaded by path given as str or as pathlib.Path, plus a mutation stream (duplicate letters, one-word '
         'rows, junk cells, exotic number syntax); abstract files with LF line ends are rendered to text by the Coq model itself '
         '(render/afile_ok of the theorems) and length+checksum of that text are compared with the bytes the driver wrote; "numfile" '
         'cases are matrices of NUMBERS whose literals are written by the model (render_num) under LF/CRLF/CR with or without a final '
         'terminator (render_with); HISTORY cases make several calls in one process with no state reset in between (repeats, other spellings, '
         'str vs Path, same base name in two directories, same content under two paths, a path rewritten with other content, results '
-        'edited by the caller between calls), each call compared with the pure model on the current content; non-trivial = distinct '
+        'edited by the caller between calls), each call compared with the pure model on the current content; extra relational stream '
+        '(no model): 250/1500 files with Greek, Cyrillic, CJK, astral-plane, zero-width and combining letters and non-ASCII comments, '
+        'written as UTF-8 and compared with the oracle\'s positional reading of the abstract words; non-trivial = distinct '
         'case with a branch marker')
-TRUSTED = ['CPython text layer (open() in text mode with universal newlines, UTF-8 decoding of ASCII), str.split/strip/splitlines/'
+TRUSTED = ['CPython text layer (open() in text mode with universal newlines, UTF-8 decoding), str.split/strip/splitlines/'
            'upper, int(), float(), dict insertion order: modelled for ASCII and compared on every case',
            'os.path.isfile(fname) is taken as false for names (empty working directory in the driver); the lookup of NAME.upper() in '
            '_submat_files() is modelled on the regenerated list; importlib.resources.files(...).joinpath opening that very file',
@@ -28,15 +31,33 @@ TRUSTED = ['CPython text layer (open() in text mode with universal newlines, UTF
            'empties a functools cache on submat if one exists (none on the current code), so that every replay is self-contained',
            'tools/gens/c20.py copies the raw bytes of each bundled file into coq/gen/G_submat_<k>.v; length and checksum are recomputed '
            'in Coq and compared with the file on disk in every name case']
-ASSUMPTIONS = ['file content and names restricted to ASCII; names are not absolute paths and do not leave the working directory via ".."',
+ASSUMPTIONS = ['the locale\'s default text encoding is UTF-8 (as in the sandbox): a file holds the UTF-8 encoding of its text and open(fname) '
+               'decodes it; the Coq model works on the DECODED text over code points 0..255 (ASCII + Latin-1 letters, NBSP and NEL as white '
+               'space / line boundary); text with letters beyond code point 255 (Greek, Cyrillic, CJK, astral plane) is checked against the '
+               'oracle only; matrix NAMES are ASCII, not absolute paths and do not leave the working directory via ".."',
                'number syntax of cells restricted to [+-]?D+ (int rows) and [+-]?(D+|D+.D*|.D+) (rows containing a "."); other '
                'forms accepted by int()/float() (underscores, exponents, inf, nan) are outside the domain',
                'header letters and row letters pairwise different (otherwise "the number at that position" is ambiguous)',
                'the requested name is not the path of a regular file (the driver runs each name case in an empty working directory)']
 
-WS_IN_LINE = ' \t\x1f'
-LINE_ENDS = ['\n', '\r\n', '\r', '\x0c', '\x1c', '\x0b', '\x1d', '\x1e']
+WS_IN_LINE = ' \t\x1f\xa0'        # white space that does not end a line (NBSP is str.isspace)
+LINE_ENDS = ['\n', '\r\n', '\r', '\x0c', '\x1c', '\x0b', '\x1d', '\x1e', '\x85']
 ALL_WS = ' \t\n\x0b\x0c\r\x1c\x1d\x1e\x1f'
+
+
+def _textchar(ch):
+    """a character that may be part of a word: not white space for str.split (any script), encodable as UTF-8"""
+    return not ch.isspace() and not 0xD800 <= ord(ch) <= 0xDFFF
+
+
+def file_bytes(text):
+    """what is on disk: the UTF-8 encoding of the text (the sandbox's default text encoding, which open(fname) uses)"""
+    return text.encode('utf-8')
+
+
+def in_model(text):
+    """the Coq model carries decoded text over the code points 0..255"""
+    return all(ord(ch) < 256 for ch in text)
 
 
 def _data_dir():
@@ -56,7 +77,7 @@ def words_of(line):
     out = []
     for w in line.get('w', []):
         if isinstance(w, str):
-            w = ''.join(ch for ch in w if ch not in ALL_WS and ord(ch) < 128)
+            w = ''.join(ch for ch in w if _textchar(ch))
             if w:
                 out.append(w)
     return out
@@ -70,7 +91,7 @@ def _ws(s, default):
 def render_line(line):
     k = line.get('k')
     if k == 'c':        # comment: the '#' is supplied here, the text cannot end the line
-        t = ''.join(ch if (ch not in ALL_WS or ch in ' \t') and ord(ch) < 128 else ' ' for ch in str(line.get('t', '')))
+        t = ''.join(ch if _textchar(ch) or ch in ' \t' else ' ' for ch in str(line.get('t', '')))
         return _ws(line.get('lead'), '') + '#' + t
     if k == 'b':        # blank
         return _ws(line.get('t'), '')
@@ -93,7 +114,7 @@ def render(case):
 
 def coq_rendered(case):
     """abstract cases with LF line ends and a final newline are rendered by the Coq model itself (run_C20f)"""
-    if case.get('_plain'):
+    if case.get('_plain') or ('lines' in case and 'raw' not in case and not in_model(render(case))):
         return False
     nl = case.get('nl', '\n')
     if nl not in LINE_ENDS:
@@ -220,17 +241,23 @@ def numfile_expected(case):
 
 # ----------------------------------------------------------------------------- generators
 
-LETTER_POOLS = ['ARNDCQEGHILKMFPSTWYVBZX*', 'ACGTRYSWKMBDHVN', 'abcdefghijklmnop', '0123456789', '*-+.#@!$%&/()=?<>[]{}|~^_:;,']
+LETTER_POOLS = ['ARNDCQEGHILKMFPSTWYVBZX*', 'ACGTRYSWKMBDHVN', 'abcdefghijklmnop', '0123456789', '*-+.#@!$%&/()=?<>[]{}|~^_:;,',
+                'ACGU\xe9\xd1\xdf\xb5\xd0\xfe\xbf\xd7\xa7\xb2\xff\x80\x9f\xad']          # Latin-1 letters (decoded text within the model)
+UNICODE_POOLS = ['ACGU\u03a8\u03c8\u03a9\u03b1\u03b2',                      # Greek (Psi for pseudouridine)
+                 '\u0410\u0411\u0412\u0416\u042f\u0444',                     # Cyrillic
+                 '\u4e2d\u6587\u5b57\u3042\u30a2',                          # CJK / kana
+                 'A\xe9\u03a8\u0416\u4e2d\U0001d6d9\U0001f9ec\u200b\u0301']      # mixed, astral plane, zero-width and combining characters
 
 
-def _letters(rng, n):
-    pool = rng.choice(LETTER_POOLS)
+def _letters(rng, n, pools=None):
+    pools = pools or LETTER_POOLS
+    pool = rng.choice(pools)
     out = []
     tries = 0
     while len(out) < n and tries < 200:
         tries += 1
         if rng.random() < 0.15:
-            w = ''.join(rng.choice(''.join(LETTER_POOLS)) for _ in range(rng.choice([2, 2, 3])))
+            w = ''.join(rng.choice(''.join(pools)) for _ in range(rng.choice([2, 2, 3])))
         else:
             w = rng.choice(pool)
         if w not in out:
@@ -269,7 +296,8 @@ def _dec_tok(rng):
 
 
 def _comment(rng):
-    return {'k': 'c', 't': rng.choice(['', ' BLOSUM', '  Matrix made by x', ' Lowest score = -4, Highest score = 5', '#', ' A R N D', '\t1 2 3', ' 1.5']),
+    return {'k': 'c', 't': rng.choice(['', ' BLOSUM', '  Matrix made by x', ' Lowest score = -4, Highest score = 5', '#', ' A R N D', '\t1 2 3', ' 1.5',
+                                       ' caf\xe9 \xb5-matrix \xa9', ' \xd0\xfe\xbf 1 2']),
             'lead': rng.choice(['', '', '', ' ', '\t', '  \x1f'])}
 
 
@@ -277,11 +305,11 @@ def _blank(rng):
     return {'k': 'b', 't': rng.choice(['', '', ' ', '   ', '\t', ' \x1f '])}
 
 
-def gen_file(rng, big=False):
+def gen_file(rng, big=False, pools=None):
     n = rng.choice([1, 2, 3, 4, 5, 8] + ([12, 24] if big else []))
-    letters = _letters(rng, n)
+    letters = _letters(rng, n, pools)
     square = rng.random() < 0.7
-    rows = list(letters) if square else _letters(rng, rng.choice([1, 2, 3, 5]))
+    rows = list(letters) if square else _letters(rng, rng.choice([1, 2, 3, 5]), pools)
     if not square and rng.random() < 0.5:
         rows = rows + [l for l in letters if l not in rows][:2]
     rng_sep = lambda: rng.choice([' ', ' ', '  ', '   ', '\t', ' \t', '\x1f', '    '])
@@ -352,7 +380,7 @@ def mutate(rng, c):
         l = wl[rng.randrange(1, len(wl))]
         l['w'] = ['.' + l['w'][0]] + l['w'][1:]
     elif kind == 'nonascii':
-        return {'op': 'file', 'raw': render(c).replace(' ', ' \xe9', 1)}
+        return {'op': 'file', 'raw': render(c).replace(' ', rng.choice([' \xe9', '\xa0', '\x85', ' \xa0 ', '\xe9'])), 'aspath': c.get('aspath', False)}
     return c
 
 
@@ -435,7 +463,7 @@ def gen_cases(rng, tier):
         if rng.random() < 0.2:
             c = mutate(rng, c)
         cases.append(c)
-    for raw in ['', '\n', '#\n', 'A\n', 'A B\nA 1 2\nB 2 1', 'A B\r\nA 1 2\r\nB 2 1\r\n', ' A B\nA 1.0 2\nB 2 1\n', 'A\x0bB\nA 1\n',
+    for raw in ['\xc9 \xd1\n\xc9 1 2\n\xd1 2 1\n', 'A\xa0B\nA\xa01\xa02\n', 'A B\x85A 1 2\x85B 2 1', '# caf\xe9\n\xb5 \xdf\n\xb5 1.5 2\n', '', '\n', '#\n', 'A\n', 'A B\nA 1 2\nB 2 1', 'A B\r\nA 1 2\r\nB 2 1\r\n', ' A B\nA 1.0 2\nB 2 1\n', 'A\x0bB\nA 1\n',
                 'A B\nA 1 2\x0cB 2 1\n', 'A B\nA\x1f1\x1f2\n', 'A B\nA 1', 'A B\nA 1 2 3 x\n', 'A B\nA x\n', 'A B\nA\n', 'A A\nA 1 2\n']:
         cases.append({'op': 'file', 'raw': raw})
     for _ in range(1500 if thorough else 260):
@@ -570,7 +598,7 @@ def impl_history(case):
             elif a[0] == 'file':
                 p = os.path.join(d, SLOTS[a[1]])
                 with open(p, 'wb') as f:
-                    f.write(a[2].encode('latin-1'))
+                    f.write(file_bytes(a[2]))
                 try:
                     m = submat(pathlib.Path(p) if a[3] else p)
                     objs[i] = m
@@ -609,9 +637,9 @@ def impl(case):
     arg = pathlib.Path(p) if case.get('aspath') else p
     try:
         with os.fdopen(fd, 'wb') as f:
-            f.write(content.encode('latin-1'))
+            f.write(file_bytes(content))
         if case['op'] == 'numfile' or coq_rendered(case):
-            b = content.encode('latin-1')
+            b = content.encode('latin-1')          # the model's text: one byte per code point (< 256 here)
             try:
                 m = canon_matrix(submat(arg))
             except Exception as e:
@@ -622,8 +650,15 @@ def impl(case):
         os.remove(p)
 
 
+OUTSIDE_MODEL = 'out (VL [VB false; VNone])'      # text beyond code point 255: relational check only (extra_checks)
+
+
 def model_term(case):
+    if case['op'] == 'file' and not in_model(render(case)):
+        return OUTSIDE_MODEL
     if case['op'] == 'hist':
+        if not all(in_model(a[2]) for a in plan(case) if a[0] == 'file'):
+            return OUTSIDE_MODEL
         ts = []
         for a in plan(case):
             if a[0] == 'name':
@@ -837,6 +872,47 @@ def spec(case, got):
     return compare_matrix(file_result(case, got), exp)
 
 
+# ----------------------------------------------------------------------------- letters beyond Latin-1 (no model: relational check)
+
+def gen_unicode_file(rng):
+    """a generated file whose letters / comments use scripts beyond code point 255 (Greek, Cyrillic, CJK, astral plane)"""
+    c = gen_file(rng, pools=UNICODE_POOLS)
+    for l in c['lines']:
+        if l.get('k') == 'c' and rng.random() < 0.7:
+            l['t'] = rng.choice([' \u03a8 = pseudouridine', ' \u043c\u0430\u0442\u0440\u0438\u0446\u0430 1 2', ' \u77e9\u9635\u3000\u2028x', ' \U0001f9ec caf\xe9'])
+    if rng.random() < 0.3:
+        c['lines'].insert(0, {'k': 'c', 't': ' \u03a8\u03a9 \u4e2d\u6587', 'lead': ''})
+    if rng.random() < 0.1:
+        c['nl'] = rng.choice(['\n', '\r\n', '\x85'])
+    return c
+
+
+def extra_checks(rng, tier, cov):
+    """Files with letters beyond the Latin-1 range cannot be carried by the Coq model (one byte per code point); they are
+    written as UTF-8, loaded by submat (str or Path) and compared with the oracle's positional reading of the ABSTRACT words."""
+    from framework import run_impl, jcanon
+    n = 1500 if tier == 'thorough' else 250
+    fixed = [{'op': 'file', 'lines': [{'k': 'c', 't': ' \u03a8 = pseudouridine', 'lead': ''},
+                                      {'k': 'w', 'w': ['A', 'U', '\u03a8'], 'sep': ' ', 'lead': '  ', 'trail': ''},
+                                      {'k': 'w', 'w': ['A', '2', '-1', '-1'], 'sep': ' ', 'lead': '', 'trail': ''},
+                                      {'k': 'w', 'w': ['U', '-1', '2', '1'], 'sep': ' ', 'lead': '', 'trail': ''},
+                                      {'k': 'w', 'w': ['\u03a8', '-1', '1', '2.5'], 'sep': ' ', 'lead': '', 'trail': ''}],
+              'nl': '\n', 'nofinal': False, 'aspath': False}]
+    ran = beyond = 0
+    for i in range(n + len(fixed)):
+        c = fixed[i] if i < len(fixed) else gen_unicode_file(rng)
+        txt = render(c)
+        if in_model(txt):
+            continue                      # all letters happened to be Latin-1: already covered through the model
+        beyond += 1
+        got = jcanon(run_impl(impl, c))
+        why = spec(c, got)
+        ran += 1
+        if why:
+            yield {'case': c, 'impl': got, 'spec': why, 'model': None, 'wf': True, 'evaluated': False, 'noshrink': True}
+    cov['unicode_files_beyond_latin1'] = beyond
+
+
 # ----------------------------------------------------------------------------- evidence helpers
 
 def nontrivial(case, got):
@@ -939,7 +1015,7 @@ def python_snippet(case):
                 lines.append('try:\n    r[%d] = submat(%r); print(%d, r[%d])\nexcept Exception as e:\n    print(%d, type(e).__name__, str(e)[:80])' % (i, a[1], i, i, i))
             elif a[0] == 'file':
                 arg = 'pathlib.Path(d + "/%s")' % SLOTS[a[1]] if a[3] else 'd + "/%s"' % SLOTS[a[1]]
-                lines.append('open(d + "/%s", "wb").write(%r)' % (SLOTS[a[1]], a[2].encode('latin-1')))
+                lines.append('open(d + "/%s", "wb").write(%r)' % (SLOTS[a[1]], file_bytes(a[2])))
                 lines.append('try:\n    r[%d] = submat(%s); print(%d, r[%d])\nexcept Exception as e:\n    print(%d, type(e).__name__, str(e)[:80])' % (i, arg, i, i, i))
             elif a[0] == 'mutate':
                 lines.append('m = r.get(%d)  # the caller edits its own result (%s)\nif isinstance(m, dict) and m:\n    k = next(iter(m)); m[k][next(iter(m[k]))] = 424242' % (a[1], a[2]))
@@ -948,7 +1024,7 @@ def python_snippet(case):
         return 'from sugar.data import submat; print(submat(%r))' % case['name']
     return ("import tempfile, os, pathlib; from sugar.data import submat\n"
             "f = tempfile.NamedTemporaryFile('wb', delete=False); f.write(%r); f.close()\n"
-            "try:\n    print(submat(%s))\nfinally:\n    os.remove(f.name)") % ((numfile_text(case) if case['op'] == 'numfile' else render(case)).encode('latin-1'),
+            "try:\n    print(submat(%s))\nfinally:\n    os.remove(f.name)") % (file_bytes(numfile_text(case) if case['op'] == 'numfile' else render(case)),
                                                                                   'pathlib.Path(f.name)' if case.get('aspath') else 'f.name')
 
 
@@ -966,9 +1042,10 @@ LEVEL_TEXT = ('Machine-checked Coq theorems over the regenerated raw bytes of al
               'arguments), of files whose text and number literals are produced by the model itself, and of multi-call histories.')
 LEVEL_NOTE = ('Trusted: Coq kernel/vm_compute, tools/gens/c20.py (byte copy; length+checksum re-verified in Coq against the disk file), the '
               'correspondence harness, CPython str/int/float/open/os.path.isfile/importlib.resources. Modelled rather than verified: '
-              'submat() and _submat_files(); ASCII only; cells in plain integer/decimal syntax; float cells compared as exact decimal '
+              'submat() and _submat_files(); decoded text over code points 0..255 (the locale\'s default text encoding is assumed to be '
+              'UTF-8, as in the sandbox; letters beyond Latin-1 are covered by a relational check without model); cells in plain integer/decimal syntax; float cells compared as exact decimal '
               'literals converted by Fraction (CPython float() itself is trusted). Tested only, not proved: other line boundaries of '
-              'str.splitlines (\\x0b \\x0c \\x1c-\\x1e) in rendered files, non-canonical number spellings (+5, 007, .5), call-history '
+              'str.splitlines (\\x0b \\x0c \\x1c-\\x1e \\x85) in rendered files, letters beyond code point 255, non-canonical number spellings (+5, 007, .5), call-history '
               'independence (histories: repeats, rewritten paths, results edited by the caller; fixed defect cache_aliasing, commit 0feda3c, '
               'witnesses in corpus/C20/histories.json). Measured reach: every statement of submat and _submat_files is executed in the quick tier '
               'except the two def lines (61, 66), which run at import time before the measurement starts. '
